@@ -27,3 +27,4 @@ import RenetVerif.Props.SrcTieNcPacket
 import RenetVerif.Props.SrcTieNcAddr
 import RenetVerif.Props.SrcTieNcConnToken
 import RenetVerif.Props.SrcTieConn
+import RenetVerif.Props.SrcTieConnSend
